@@ -24,9 +24,13 @@ def main():
     if hasattr(mon, "child_setup"):
         mon.child_setup()
     import faulthandler
+    from vlib import util
+    cur = [None]
+    util._partial_sink = lambda v: emit({"i": cur[0], "partial": v})
     case_timeout = batch.get("case_timeout")
     for idx, case in batch["cases"]:
         emit({"i": idx, "start": True})
+        cur[0] = idx
         t0 = time.time()
         if case_timeout:
             # per-case watchdog: fires from faulthandler's own thread even when the main thread is stuck inside the
